@@ -161,7 +161,11 @@ func applyAction(w *World, st State, a Action) (State, TxResult) {
 // materialise replays the preamble and a history on a fresh branch. Every replayed transaction succeeded when it was
 // first executed (on this or another application instance, from the same state); if it fails now, the same transaction on
 // the same state gave two different results. For the determinism property that IS a violation; elsewhere it is a harness error.
-func (e *Explorer) materialise(w *World, hist []int) State {
+func (e *Explorer) materialise(w *World, hist []int) State { return e.materialiseMode(w, hist, true) }
+
+// materialiseMode: strict = every history step is known to have succeeded before (BFS histories); enumerated grid
+// histories legitimately contain failing transactions and are replayed non-strictly.
+func (e *Explorer) materialiseMode(w *World, hist []int, strict bool) State {
 	st := w.Initial()
 	diverged := func(what string, a Action, r TxResult) {
 		msg := fmt.Sprintf("scenario %s: %s %s succeeded before but fails when replayed on the same state in this process: %s", e.Sc.Name, what, a.Name, r.Err)
@@ -180,7 +184,7 @@ func (e *Explorer) materialise(w *World, hist []int) State {
 	for _, i := range hist {
 		var r TxResult
 		st, r = applyAction(w, st, e.Sc.Alphabet[i])
-		if !r.OK {
+		if !r.OK && strict {
 			diverged("history step", e.Sc.Alphabet[i], r)
 		}
 	}
@@ -482,7 +486,7 @@ func (e *Explorer) RunHistories(hists [][]int) (Stats, []Found) {
 					return
 				}
 				n := items[i]
-				st := e.materialise(w, n.prefix)
+				st := e.materialiseMode(w, n.prefix, false)
 				preDump := w.Dump(st)
 				pre := Decode(preDump)
 			chain:
